@@ -168,6 +168,19 @@ def _frames_ok(plain, sent, thr, zl, sentinel):
     """reference frame format over the plaintext wire bytes.  With a symbolic
     threshold each packet has two candidate layouts of different length; walk
     all combinations (<= 2^k)."""
+    # which compressed string belongs to which packet: the stub's calls are in
+    # write order, so walk its table once (two packets may carry the same
+    # plaintext, matching by content alone would confuse them)
+    comp_of, ptr = {}, 0
+    for j_, (cls_, data_, _x) in enumerate(sent):
+        body_ = [cls_.id] + list(bytes_items(data_))
+        if ptr < len(zl.table):
+            out_, orig_ = zl.table[ptr]
+            if len(orig_) == len(body_) and all(
+                    netenv._same_item(a, b) for a, b in zip(orig_, body_)):
+                comp_of[j_] = out_
+                ptr += 1
+
     def bodies(j):
         cls, data, _ = sent[j]
         body = [cls.id] + list(bytes_items(data))
@@ -180,11 +193,7 @@ def _frames_ok(plain, sent, thr, zl, sentinel):
             big = z3.And(te != -1, te <= n)     # wrong: >= instead of >
         # which compressed string belongs to this packet?  the stub's k-th
         # call (in write order among compressed ones) - match by plaintext
-        comp = None
-        for out, orig in zl.table:
-            if len(orig) == n and all(
-                    netenv._same_item(a, b) for a, b in zip(orig, body)):
-                comp = out
+        comp = comp_of.get(j)
         alts = [(z3.Not(big), wire.frame([0] + body))]
         if comp is not None:
             alts.append((big, wire.frame(wire.leb128_const(n) + list(comp))))
